@@ -332,8 +332,43 @@ def period_bookkeeping(chk):
     (chk.ok if ok3 else (lambda o, d: chk.fail(o, d, None)))('C05/(4)interface.to_domain', 'full state = base state with the corrected controls; half period measured from that corrected state')
 
 
+def _replay_general():
+    """General confirmation on the compiled build: every orbit family at Earth-Moon L1 and L2 is corrected from its analytic guess;
+    the corrected state must return to its symmetric crossing after half the reported period with the family's residual below the
+    tolerance, must close after the full period, and the orbit must carry exactly the returned state and period."""
+    return '''
+import warnings; warnings.filterwarnings("ignore")
+from hiten.system import System
+from hiten.algorithms.dynamics.base import _propagate_dynsys
+sysm = System.from_bodies("earth", "moon"); bad = {}
+def flow(x, tf):
+    sol = _propagate_dynsys(dynsys=sysm.dynsys, state0=np.asarray(x, dtype=float), t0=0.0, tf=tf, forward=1, steps=2000, method="adaptive", order=8)
+    return np.asarray(sol.states[-1], dtype=float)
+for k in (1, 2):
+    lp = sysm.get_libration_point(k)
+    for fam, kw in (("halo", dict(amplitude_z=0.02, zenith="southern")), ("halo", dict(amplitude_z=0.04, zenith="northern")), ("lyapunov", dict(amplitude_x=0.01)), ("vertical", dict(initial_state=None))):
+        tag = "L%d_%s_%s" % (k, fam, "_".join(str(v) for v in kw.values()))
+        try:
+            o = lp.create_orbit(fam, **{a: b for a, b in kw.items() if b is not None})
+            res = o.correct()
+        except Exception as e:
+            if fam == "vertical": continue        # needs an explicit guess; not part of this confirmation
+            bad[tag] = "correction raised %s" % repr(e)[:80]; continue
+        x0, T = np.asarray(o.initial_state, dtype=float), float(o.period)
+        if not np.allclose(x0, np.asarray(res.x_corrected, dtype=float), rtol=0, atol=0): bad[tag + "_state"] = "orbit does not carry the returned state"; continue
+        if abs(T - 2.0 * float(res.half_period)) > 1e-14 * max(1.0, T): bad[tag + "_period"] = "period %.15g is not twice the returned half period %.15g" % (T, float(res.half_period)); continue
+        xh = flow(x0, 0.5 * T)
+        # symmetric families: perpendicular crossing of the y = 0 plane after half a period
+        if abs(xh[1]) > 1e-7 or abs(xh[3]) > 1e-6 or (fam == "halo" and abs(xh[5]) > 1e-6): bad[tag + "_half_period_crossing"] = "y=%.2e vx=%.2e vz=%.2e at T/2" % (xh[1], xh[3], xh[5]); continue
+        xT = flow(x0, T)
+        if float(np.max(np.abs(xT - x0))) > 1e-5: bad[tag + "_closure"] = "|x(T) - x(0)| = %.2e" % float(np.max(np.abs(xT - x0)))
+_verdict(bool(bad), **bad)
+'''
+
+
 def main():
     chk = Check(PID)
+    chk.default_replay = _replay_general
     thorough = chk.tier == 'thorough'
     from hiten.algorithms.corrector.backends.newton import _NewtonBackend
     from hiten.algorithms.corrector.backends.base import _CorrectorBackend
